@@ -130,14 +130,10 @@ class ElseIfEval(EvalContract):
         for x in _ast.walk(eng.fdef):
             if isinstance(x, _ast.If) and x.lineno == ln:
                 t = x.test
+                # `if not <flag>` where <flag> is an iteration flag of the loop over the left operand (whatever its name)
                 return (isinstance(t, _ast.UnaryOp) and isinstance(t.op, _ast.Not) and isinstance(t.operand, _ast.Name)
-                        and t.operand.id == 'any_left')
+                        and t.operand.id in getattr(self, '_loop_flags', {}).get(1, ()))
         return False
-
-    def loop_invariant(self, eng, st, ordinal, iterated):
-        if ordinal == 1 and 'any_left' in st.locals:
-            return eng.to_z3_bool(eng.truth(st, st.locals['any_left'])) == iterated
-        return None
 
 
 CONTRACTS += [ANDEval, ElseIfEval]
